@@ -174,9 +174,10 @@ where
         }
 
         for record in self.tracker.sessions.values_mut() {
-            // best effort to send the command to each session this isn't critical so we wouldn't
-            // want to slow the server down by awaiting it
-            let _ = record.commands.send(command).await;
+            // best effort to send the command to each session: this isn't critical, and the server
+            // must never wait for a session (one that is blocked, e.g. writing to a peer that does
+            // not read, does not empty its queue: awaiting it would stop the whole server)
+            let _ = record.commands.try_send(command);
         }
     }
 
